@@ -262,6 +262,26 @@ PROPS = {
         "assumptions": COMMON_ASSUME,
         "trusted_base": ["modelled, not verified: the pretty crate's layout engine, handlebars templates of the Rust binding, the javascript / typescript / motoko / rust printers above the modelled functions (analysis.rs order, identifier escaping, doc-comment escaping, quoting shape)", 'node 20 evaluating the generated JavaScript against harness/js/idl_stub.js (an abstract IDL builder written for this check)', "Rust's char::escape_debug: assumed only through the shape esc_ok, which p.c19.escape_debug establishes exhaustively on every run"],
     },
+    "C20": {
+        "claim": "For generated environments (recursive, mutually recursive, aliases, references) and 1-3 argument types, 10 configurations (default; small, zero and "
+                 "negative depth / size; widths 0-5; ranges incl. degenerate and partly out of the type's range; text kinds ascii / emoji / name / path / name.cn) and "
+                 "seeds of 0, 1, 7, 64, 512, 2048 bytes (exhausted entropy included): random::any returns an error or values; every value returned is handed to "
+                 "the MODEL's has_type (c20.inhabits); p.c20.inhabits checks on the implementation that each value annotates unchanged in both modes, encodes at "
+                 "the requested types and decodes back; p.c20.bounds that vectors / texts respect the configured width and numbers the configured range; "
+                 "p.c20.config_value that values supplied through the configuration are returned only if they have the type; invalid configurations, the type "
+                 "empty, variants with no or only empty alternatives, and types without finite values (type A = variant { a : A }, in a child process) give an "
+                 "error, never a panic. Coq theorems (closed), for ALL values: an inhabitant (has_type) annotates unchanged in both modes, and whatever it "
+                 "encodes to decodes back to it.",
+        "note": "random::any, arbitrary::Unstructured and the fake crate are not modelled: that generation terminates within the configured depth and size is "
+                "observed (every case returns), not proved; the exact values are not predicted by the model.",
+        "props_file": "props/C20.v",
+        "shards": (4, 16),
+        "rule": "cases: 40 (x10 thorough) environments x 10 configurations, each with 4 ops; 16 configured-value cases; 25 invalid configurations; 48 cases on types "
+                "without values. Non-trivial: all (every case has a structured type or a hostile configuration).",
+        "assumptions": COMMON_ASSUME,
+        "trusted_base": ["modelled, not verified: candid_parser::random (generation strategy, budgets), candid_parser::configs (configuration tree), arbitrary 1.3.2, fake, rand",
+                         "has_type (model/Val.v) is the definition of inhabitant the theorems and the check share; its agreement with the implementation's annotate / encode is what C03 and C10 check"],
+    },
     "C09": {
         "claim": "Coq theorems (closed, no axioms) over executable mirrors of every (S)LEB128 codec in the code: Nat::decode, Int::decode, the "
                  "typed deserializer's 9-byte fast paths with their fall-backs, and the 128-bit decoders map EVERY terminated byte string of ANY "
